@@ -81,8 +81,9 @@ type Frame struct {
 }
 
 type loopCtx struct {
-	mode  int // 0 real, 1 discover, 2 houdini
-	cands []cand
+	mode      int // 0 real, 1 discover, 2 houdini, 3 unrolled
+	cands     []cand
+	remaining int
 }
 
 type Obligation struct {
